@@ -141,3 +141,32 @@ Proof.
     assert (render p = render q) by (rewrite <- (PathProofs.render_norm p), <- (PathProofs.render_norm q), N; reflexivity).
     rewrite H in E. rewrite ValueFacts.pystr_eqb_refl in E. discriminate E.
 Qed.
+
+(* ---- W6 (K13d): exclude_paths and include_paths together: the include branch of _skip_this
+        overwrites the exclude verdict, the excluded root['a']['b'] is reported ---- *)
+Definition w6_t1 := VDict [(ks "a", VDict [(ks "b", vi 1); (ks "c", vi 2)])].
+Definition w6_t2 := VDict [(ks "a", VDict [(ks "b", vi 2); (ks "c", vi 3)])].
+
+Lemma exclude_under_include_witness :
+  map (fun e => (ekind e, ep1 e))
+      (fst (run_filtered h0 u0 o0 no_skip [s2p "root['a']['b']"] [s2p "root['a']"] positional0 w6_t1 w6_t2)) =
+    [(KValue, [PKey (ks "a"); PKey (ks "b")]); (KValue, [PKey (ks "a"); PKey (ks "c")])].
+Proof. vm_compute. reflexivity. Qed.
+
+(* ---- W7: threshold > 0: the mere PRESENCE of an excluded key on both sides decides what is
+        reported for its siblings (the intersection is not reduced) ---- *)
+Definition w7_key : atom := ks "a".
+Definition w7_rest1 := [(ks "b", vi 2)].
+Definition w7_rest2 := [(ks "c", vi 2)].
+Definition w7_ex := [s2p "root['a']"].
+
+Lemma exclude_independence_threshold_refuted :
+  excluded no_skip w7_ex [PKey w7_key] = true /\
+  map (fun e => (ekind e, ep1 e))
+      (fst (run_filtered h0 u0 o0 no_skip w7_ex [] positional33
+              (VDict ((w7_key, vi 1) :: w7_rest1)) (VDict ((w7_key, vi 1) :: w7_rest2)))) =
+    [(KDictAdd, [PKey (ks "c")]); (KDictRem, [PKey (ks "b")])] /\
+  map (fun e => (ekind e, ep1 e))
+      (fst (run_filtered h0 u0 o0 no_skip w7_ex [] positional33 (VDict w7_rest1) (VDict w7_rest2))) =
+    [(KValue, [])].
+Proof. vm_compute. repeat split; reflexivity. Qed.
